@@ -83,3 +83,7 @@ def assume(x):
 
 def intstr(x):
     return str(int(x))
+
+
+def local(name):
+    raise NotImplementedError("locals at the exit point are not observable natively")
